@@ -19,16 +19,17 @@ Qed.
 Lemma is_simple_id_loop v s : is_simple_id v s = true -> s <> EmptyString /\ id_chars_ok s true = true.
 Proof.
   unfold is_simple_id. destruct s as [|c r]; [discriminate|]. intros H. split; [discriminate|].
-  destruct v; [exact H|]. apply andb_true_iff in H. tauto.
+  destruct v; [exact H | |]; apply andb_true_iff in H; tauto.
 Qed.
 
 Lemma smt_reserved_same : smt_reserved_words = reserved_words.
 Proof. reflexivity. Qed.
 
-Lemma is_simple_id_fix_not_reserved s : is_simple_id Fix s = true -> is_reserved s = false.
+Lemma is_simple_id_fix_not_reserved v s : v <> Cur -> is_simple_id v s = true -> is_reserved s = false.
 Proof.
-  unfold is_simple_id. destruct s as [|c r]; [discriminate|]. intros H. apply andb_true_iff in H.
-  destruct H as [H _]. apply negb_true_iff in H. unfold is_reserved. now rewrite <- smt_reserved_same.
+  intros Hv. unfold is_simple_id. destruct s as [|c r]; [discriminate|]. intros H.
+  destruct v; [now elim Hv | |]; apply andb_true_iff in H.
+  all: destruct H as [H _]; apply negb_true_iff in H; unfold is_reserved; now rewrite <- smt_reserved_same.
 Qed.
 
 Lemma is_simple_id_chars v s : is_simple_id v s = true -> is_simple_chars s = true.
@@ -71,7 +72,7 @@ Lemma escape_sound_gen v n :
 Proof.
   intros Hc Hr. unfold escape_id. destruct (is_simple_id v n) eqn:Es.
   - assert (Hres : is_reserved n = false).
-    { destruct v; [now apply Hr | now apply is_simple_id_fix_not_reserved]. }
+    { destruct v; [now apply Hr | |]; (eapply is_simple_id_fix_not_reserved; [|exact Es]; discriminate). }
     destruct n as [|c r]; [discriminate|]. unfold symbol_name.
     rewrite (is_simple_id_first v _ c r eq_refl Es).
     unfold is_simple_symbol. rewrite (is_simple_id_chars v _ Es), Hres. reflexivity.
@@ -83,6 +84,9 @@ Qed.
 Lemma escape_sound_lemma v n :
   name_chars_ok n = true -> is_reserved n = false -> symbol_name (escape_id v n) = Some n.
 Proof. intros Hc Hr. apply escape_sound_gen; auto. Qed.
+
+Lemma escape_sound_repaired v n : v <> Cur -> name_chars_ok n = true -> symbol_name (escape_id v n) = Some n.
+Proof. intros Hv Hc. apply escape_sound_gen; [assumption | intros E; now elim Hv]. Qed.
 
 Lemma escape_sound_fix n : name_chars_ok n = true -> symbol_name (escape_id Fix n) = Some n.
 Proof. intros Hc. apply escape_sound_gen; [assumption | discriminate]. Qed.
